@@ -183,7 +183,7 @@ func gen(h *lp.H, do func(string) string) {
 		nsteps := 10 + rng.Intn(30)
 		sig := ""
 		for s := 0; s < nsteps; s++ {
-			alias := 1 + rng.Intn(5)
+			alias := rng.Intn(5) // alias 0 is a legal alias
 			node := rng.Intn(3)
 			tok++
 			switch r := rng.Intn(16); {
@@ -197,6 +197,14 @@ func gen(h *lp.H, do func(string) string) {
 					sent[fmt.Sprintf("ack/%d", alias)] = nil
 				}
 				sig += "U"
+			case r == 1 && (len(ups) == 0 || rng.Intn(4) == 0): // close of a stream id the connection does not know (e.g. a repeated close)
+				kind := []string{"upclose", "downclose"}[rng.Intn(2)]
+				out := do(fmt.Sprintf("req %d %s %d", caller, kind, 700+rng.Intn(3)))
+				if id, ok := issuedID(out); ok {
+					do(fmt.Sprintf("resp %d %sr", id, kind))
+					do("sync")
+				}
+				sig += "z"
 			case r == 1 && len(ups) > 0: // close upstream
 				i := rng.Intn(len(ups))
 				out := do(fmt.Sprintf("req %d upclose %d", caller, ups[i].sid))
